@@ -181,6 +181,34 @@ C06Swap(pre, e, post) ==
           /\ Sub("traded_prices", t.preSqrtPrice \doteq pre.pool[p].sqrtPrice /\ t.postSqrtPrice \doteq post.pool[p].sqrtPrice)
           /\ Sub("traded_ids", t.aToB = e.args.aToB /\ t.pool = e.slots.whirlpool.id)
 
+(* C06 for two-hop swaps: each leg's fee is split and booked on ITS pool exactly like a single swap's - protocol
+   share added to the protocol fees owed in the leg's input token, LP share folded into that token's growth, the
+   other token's counters untouched - and each pool's Traded record reports these amounts.              *)
+LegRecord(e, pre, q, aToB) ==
+  LET S == {k \in DOMAIN e.swaps : e.swaps[k].done /\ e.swaps[k].a_to_b = aToB /\ e.swaps[k].pool.sqrt_price \doteq pre.pool[q].sqrtPrice
+                                    /\ e.swaps[k].pool.liq \doteq pre.pool[q].liq /\ e.swaps[k].pool.fee_rate = pre.pool[q].feeRate}
+  IN IF S = {} THEN 0 ELSE CHOOSE k \in S : TRUE
+C06Leg(pre, e, post, q, aToB) ==
+  LET k == LegRecord(e, pre, q, aToB) IN
+  /\ Sub("leg_recorded", k # 0)
+  /\ k # 0 =>
+     LET sw == e.swaps[k]
+         T  == {i \in DOMAIN e.events : e.events[i].ev = "Traded" /\ e.events[i].pool = q}
+     IN /\ Sub("step_fee", \A i \in DOMAIN sw.steps : FeeOK(StepX(sw, sw.steps[i]), StepR(sw.steps[i])))
+        /\ Sub("proto_owed", (IF aToB THEN post.pool[q].protoA ELSE post.pool[q].protoB)
+              \doteq ((IF aToB THEN pre.pool[q].protoA ELSE pre.pool[q].protoB) ++ SumCut(sw)))
+        /\ Sub("proto_other", (IF aToB THEN post.pool[q].protoB ELSE post.pool[q].protoA)
+              \doteq (IF aToB THEN pre.pool[q].protoB ELSE pre.pool[q].protoA))
+        /\ Sub("lp_growth", (IF aToB THEN post.pool[q].fgA ELSE post.pool[q].fgB) \doteq GrowthFold(sw))
+        /\ Sub("growth_other", (IF aToB THEN post.pool[q].fgB ELSE post.pool[q].fgA)
+              \doteq (IF aToB THEN pre.pool[q].fgB ELSE pre.pool[q].fgA))
+        /\ Sub("traded_record", T # {} /\ LET t == e.events[CHOOSE i \in T : TRUE] IN
+                                  t.protocolFee \doteq SumCut(sw) /\ t.lpFee \doteq (SumFee(sw) -- SumCut(sw)) /\ t.aToB = aToB)
+C06TwoHop(pre, e, post) ==
+  /\ Sub("two_swap_records", Len(e.swaps) = 2)
+  /\ C06Leg(pre, e, post, e.slots.whirlpool_one.id, e.args.aToB1)
+  /\ C06Leg(pre, e, post, e.slots.whirlpool_two.id, e.args.aToB2)
+
 C06CollectProtocol(pre, e, post) ==
   LET p == APool(e) IN
   /\ Delta(pre, post, e.slots.token_destination_a.id) \doteq pre.pool[p].protoA
@@ -974,6 +1002,7 @@ IxOK(pre, e, post) ==
   /\ Chk("C10", "packaging", C10Pack(pre, e))
   /\ Chk("C17", "two_hop", C17TwoHop(pre, e, post))
   /\ IF e.name \in {"two_hop_swap", "two_hop_swap_v2"} THEN Chk("C03", "two_hop_bounds", C03TwoHop(pre, e, post)) ELSE TRUE
+  /\ IF e.name \in {"two_hop_swap", "two_hop_swap_v2"} THEN Chk("C06", "two_hop_split", C06TwoHop(pre, e, post)) ELSE TRUE
   /\ Chk("C04", "authorised", Guard(pre, e))
   /\ Chk("C04", "setter_effect", SetterEffect(pre, e, post))
   /\ Chk("C15", "accounts_belong", Guard(pre, e))
